@@ -1,6 +1,7 @@
 package exec
 
 import (
+	"os"
 	"fmt"
 	"go/types"
 	"strings"
@@ -63,6 +64,92 @@ func (e *Exec) resolveCallee(f *Frame, c *ssa.CallCommon) (*Closure, []Value) {
 
 // formatMethod: the Error (preferred) or String method of the first operand in a variadic
 // []interface{} that has one, with its receiver.
+// parseDecimal summarises strconv.ParseInt / ParseUint for base 10 on a string of concrete length
+// 1..18 with symbolic bytes (the real loops fork several ways per character): one branch for a
+// leading sign (ParseInt), one for "all characters are digits", one for the range. Anything else
+// (other bases, concrete or long strings) is left to the real code.
+func (e *Exec) parseDecimal(args []Value, signed bool) (Value, bool) {
+	str, ok := args[0].(*Str)
+	if !ok || str.Opaque {
+		return nil, false
+	}
+	bt, ok1 := args[1].(*term.T)
+	st, ok2 := args[2].(*term.T)
+	if !ok1 || !ok2 || !bt.IsConst() || !st.IsConst() || bt.Val != 10 {
+		return nil, false
+	}
+	bs := e.strBytes(str)
+	n := len(bs)
+	if n < 1 || n > 18 {
+		return nil, false
+	}
+	sym := false
+	for _, b := range bs {
+		if !b.IsConst() {
+			sym = true
+		}
+	}
+	if !sym {
+		return nil, false
+	}
+	bits := int(st.Val)
+	if bits == 0 {
+		bits = 64
+	}
+	if bits < 1 || bits > 64 {
+		return nil, false
+	}
+	c := e.C
+	k64 := func(v uint64) *term.T { return c.BVConst(64, v) }
+	fail := func(tag string, v *term.T) Value {
+		ne := e.numError(tag).(Ptr)
+		return Tuple{v, Iface{T: types.NewPointer(e.World.Pkgs["strconv"].Type("NumError").Type()), V: ne}}
+	}
+	neg := false
+	digits := bs
+	if signed {
+		isMinus := c.Eq(bs[0], c.BVConst(8, '-'))
+		isPlus := c.Eq(bs[0], c.BVConst(8, '+'))
+		if e.Branch(c.BOr(isMinus, isPlus), "strconv.sign") {
+			neg = e.Branch(isMinus, "strconv.minus")
+			digits = bs[1:]
+			if len(digits) == 0 {
+				return fail("strconv.ErrSyntax", k64(0)), true
+			}
+		}
+	}
+	allDigits := c.True
+	val := k64(0)
+	for _, b := range digits {
+		d := c.Bin(term.OpSub, b, c.BVConst(8, '0'))
+		allDigits = c.BAnd(allDigits, c.Cmp(term.OpULe, d, c.BVConst(8, 9)))
+		val = c.Bin(term.OpAdd, c.Bin(term.OpMul, val, k64(10)), c.ZExt(d, 64))
+	}
+	if !e.Branch(allDigits, "strconv.digits") {
+		return fail("strconv.ErrSyntax", k64(0)), true
+	}
+	if !signed {
+		if bits < 64 {
+			max := uint64(1)<<uint(bits) - 1
+			if e.Branch(c.Cmp(term.OpULt, k64(max), val), "strconv.range") {
+				return fail("strconv.ErrRange", k64(max)), true
+			}
+		}
+		return Tuple{val, Iface{}}, true
+	}
+	cutoff := uint64(1) << uint(bits-1)
+	if !neg {
+		if e.Branch(c.Cmp(term.OpULe, k64(cutoff), val), "strconv.range") {
+			return fail("strconv.ErrRange", k64(cutoff-1)), true
+		}
+		return Tuple{val, Iface{}}, true
+	}
+	if e.Branch(c.Cmp(term.OpULt, k64(cutoff), val), "strconv.range") {
+		return fail("strconv.ErrRange", k64(-cutoff)), true
+	}
+	return Tuple{c.Bin(term.OpSub, k64(0), val), Iface{}}, true
+}
+
 // formatVerbs returns the verb letter consuming each successive operand of a format string ('?' for
 // operands used as width/precision or when explicit argument indexes make the mapping unclear).
 func formatVerbs(f string) string {
@@ -219,6 +306,12 @@ func (e *Exec) invoke(t *Thread, f *Frame, clo *Closure, args []Value, call *ssa
 				return stCont
 			}
 			e.Stats.Stubs[n] = true
+			return finish(res)
+		}
+	}
+	if n := fnName(clo.Fn); (n == "strconv.ParseInt" || n == "strconv.ParseUint") && os.Getenv("KV_NOSUMMARY") == "" {
+		if res, ok := e.parseDecimal(args, n == "strconv.ParseInt"); ok {
+			e.Stats.Stubs[n+" (base 10, symbolic digits: summarised)"] = true
 			return finish(res)
 		}
 	}
